@@ -68,7 +68,7 @@ type C06Verdict struct {
 }
 
 var needs = []int{12, 15, 18, 21, 24}
-var errKinds = []string{"eof", "ueof", "err", "weof", "closed"}
+var errKinds = []string{"eof", "ueof", "err", "weof", "closed", "temp", "eagain", "eintr"}
 
 type c06run struct {
 	prev     *C06Case
@@ -406,10 +406,10 @@ func RunC06(job *C06Job, d *dev.Dev) *C06Result {
 				case x < 7:
 					s = append(s, plan.DevStep{D: 0})
 				case x < 9:
-					s = append(s, plan.DevStep{D: 0, E: errKinds[rng.Intn(5)]})
+					s = append(s, plan.DevStep{D: 0, E: errKinds[rng.Intn(len(errKinds))]})
 				default:
 					k := rng.Range(1, 8)
-					s = append(s, plan.DevStep{D: k, E: errKinds[rng.Intn(5)]})
+					s = append(s, plan.DevStep{D: k, E: errKinds[rng.Intn(len(errKinds))]})
 					total += k
 				}
 			}
